@@ -4,6 +4,7 @@ import Bclv.Model.Parser
 import Bclv.Proofs.ParserErase4
 import Bclv.Proofs.LexLayout3
 import Bclv.Proofs.LexRender6
+import Bclv.Proofs.LexRender9
 /-!
 # C20 — layout, comments and redundant parentheses never change meaning
 
@@ -50,10 +51,15 @@ the pieces that do not need a theory of re-rendering:
   operator (`lexeme_op2first`: next rune not the second one), two-rune operators
   (`lexeme_op2`).  So any number and kind of separators between such tokens — and none at
   all where the follow condition allows it — give the same tokens, hence (by
-  `parse_positions`) the same instructions, constants and verdict.  Not covered by a lexeme
-  lemma: floating-point and hexadecimal literals, escapes inside strings; and not a theorem
-  at all: that an optional `;` or redundant parentheses (different token lists) give the same
-  tree — those stay with the `layout` stream;
+  `parse_positions`) the same instructions, constants and verdict.  Further lexeme lemmas
+  (`Proofs/LexRender7`–`9`): hexadecimal integers (`lexeme_hex`), floating-point literals
+  with fraction, exponent or both and an optional sign (`lexeme_float_frac`,
+  `lexeme_float_exp`, `lexeme_float_frac_exp`), and string literals with escapes
+  (`lexeme_str_esc`: `StrBody` — plain bytes and a backslash followed by any byte but a line
+  feed — reaches the token's text one for one: nothing between the quotes is layout).  The
+  lexeme lemmas are about ASCII texts (a string literal with multi-byte characters inside is
+  not covered).  Not a theorem at all: that an optional `;` or redundant parentheses
+  (different token lists) give the same tree — those stay with the `layout` stream;
 * `positions_do_not_reach_code_partial`: the code bytes the compiler emits for an
   expression, a statement or a program do not depend on any recorded source position —
   two trees that differ only in positions compile to the same instructions;
